@@ -92,7 +92,8 @@ EXPECTED_PROBES = {
             "resample:shortened-some", "resample:left-all-unchanged"],
     "C11": ["resample:shortened-some", "resample:left-all-unchanged", "merge:isolated-contraction",
             "idempotence-checked", "empty-cell-removal"],
-    "C10": [],
+    "C10": ["angle-limit-exclusion-nonempty", "velocity-call-compared", "solve:None:None", "solve:None:velocity",
+            "solve:lsq_linear:None", "solve:lsq:None", "solve_pressure:lagrange_pressure", "parity:both-raise:solve_stress"],
 }
 
 ASSUMPTIONS = {
@@ -159,6 +160,9 @@ def cmd_check(prop, tier, args):
           f"({agg.runs / max(wall, 1e-9) * 3600:.0f} runs/h)")
     for l in lines:
         print(l)
+    stuck = [k for k in EXPECTED_PROBES.get(prop, []) if not agg.probes.get(k)]
+    if stuck:
+        print("NOTE reach probes at zero in this run (retune the generator if this persists): " + ", ".join(stuck))
     if herr:
         for e in herr[:5]:
             print("HARNESS-ERROR " + e.replace("\n", "\n    "))
